@@ -27,7 +27,7 @@ from parsers import *
 LEVEL = 'other'
 EXPLANATION = __doc__
 ASSUMPTIONS = ['String::push/push_str/truncate and str::trim_end behave as documented']
-FLOORS = {'W.width': 5, 'O.once': 2, 'C.constants': 5, 'F.full': 2, 'P.width-source': 3, 'S.splitter': 3, 'K.cursor': 2, 'K.skip-pairing': 1}
+FLOORS = {'W.width': 5, 'O.once': 2, 'C.constants': 5, 'F.full': 2, 'P.width-source': 3, 'S.splitter': 4, 'K.cursor': 2, 'K.skip-pairing': 3}
 
 def run(ctx):
     cfgs = ['none', 'dull'] if ctx.tier == 'quick' else ['none', 'dull', 'bright', 'all']
@@ -39,6 +39,8 @@ def run(ctx):
         ctx.guard(splitter, ctx, cfg, fs)
         import docwalk
         ctx.guard(docwalk.cursor_advance, ctx, cfg, fs, 'K.cursor', r'render_console$|Doc::first_line$')
+        import c12
+        ctx.guard(c12.embedders, ctx, cfg, fs, 'K.skip-pairing')
         ctx.guard(docwalk.block_pairing, ctx, cfg, fs, 'K.skip-pairing', r'impl buffer::Doc>::render_console$', [('skip', r'buffer::Skip::push$', r'buffer::Skip::pop$')])
 
 def res_local(b):
@@ -261,5 +263,22 @@ def splitter(ctx, cfg, fs):
             rs = provenance(b, st['rv']['op'], i, k, through=DEFAULT_THROUGH + [r'core::str::traits::<impl .* for str>::index$', STR_SUBSLICE]) if st['rv']['k'] == 'use' else []
             good &= bool(rs) and all((r.kind == 'param' and r.what == 'self' and r.path[:1] == ['input']) or (r.kind == 'const' and r.what == '') for r in rs)
     ctx.ob('S.splitter', 'Splitter::next:input-is-suffix', good and n >= 5, 'the remaining input is always re-assigned from a sub-slice of itself or "" (%d assignments): %s' % (n, good), where=b.where(), cfg=cfg)
+    # the width handed out with a word is its number of characters: in the loop form the counter is incremented on EVERY way
+    # around the scan loop (no character class is exempt); in the find form it is head.chars().count()
+    ci = [c for c in b.calls() if c.is_(r'CharIndices.*Iterator>::next$')]
+    how = None; wok = False
+    if len(ci) == 1 and ci[0].target is not None:
+        loop = reachable_edges(b, ci[0].target) & {x for x in b.reachable(0) if ci[0].bb in reachable_edges(b, x)}
+        incs = {i for i, k, st in b.stmts() if i in loop and st['k'] == 'assign' and st['rv']['k'] == 'bin' and st['rv']['op'].startswith('Add') and (op_const(st['rv']['b']) or {}).get('v') == 1}
+        # every back edge to the next() call passes an increment
+        around = reachable_edges(b, ci[0].target, avoid=list(incs))
+        wok = bool(incs) and ci[0].bb not in around
+        how = 'scan loop: +1 on every way around (%d increment site(s))' % len(incs)
+    else:
+        for (i, k, st) in raws:
+            rs = provenance(b, st['rv']['fields'][1], i, k, through=None)
+            if rs and any(r.kind == 'call' and r.call.is_(r'Iterator>?::count$') and 'Chars' in r.call.full for r in rs):
+                wok = True; how = 'chars().count() of the word'
+    ctx.ob('S.splitter', 'Splitter::next:width-counts-every-character', wok, 'the width reported with a word counts every character of it: %s' % (how or 'no counting form recognised'), where=b.where(), cfg=cfg)
     ch = fs.adt('buffer::splitter::Chunk')
     ctx.ob('S.splitter', 'Chunk:variants', [v['name'] for v in ch['variants']] == ['Raw', 'Paragraph', 'LineBreak'], 'Chunk has the variants %s' % [v['name'] for v in ch['variants']], cfg=cfg)
